@@ -1,9 +1,171 @@
 import NmVerif.Proto
+import NmVerif.Containers.Core
+import NmVerif.Containers.Spec
+import NmVerif.Containers.Vector
+import NmVerif.Containers.StaticVector
+import NmVerif.Containers.Either
+import NmVerif.Containers.SmallVector
+/-
+  Driver for C19: `hist kind=<vec|…> elem=<int|double> ops=<op>;<op>;…` runs the history on the MODEL and prints,
+  after every operation, the client-visible state of slots 0 and 1 (spec part), the internal state
+  (capacity, cells beyond size, ledger counters) and, at the end — after destroying what is still alive —
+  the ledger balance.   `ok S1|S2|… # I1|I2|… # leak=n`
+-/
 namespace NmVerif.Driver.C19
-open NmVerif NmVerif.Proto
+open NmVerif NmVerif.Proto NmVerif.Containers
 
-def handle : Handler := fun op _args =>
+def parseOp (s : String) : Option (Op Int) :=
+  match s.splitOn ":" with
+  | ["ctor", a] => do pure (.ctor (← a.toNat?))
+  | ["ctorN", a, n] => do pure (.ctorN (← a.toNat?) (← n.toNat?))
+  | "ctorV" :: a :: vs => do pure (.ctorV (← a.toNat?) (← vs.mapM (·.toInt?)))
+  | ["copy", d, a] => do pure (.copy (← d.toNat?) (← a.toNat?))
+  | ["assign", d, a] => do pure (.assign (← d.toNat?) (← a.toNat?))
+  | ["push", a, v] => do pure (.push (← a.toNat?) (← v.toInt?))
+  | ["pushAt", a, i] => do pure (.pushAt (← a.toNat?) (← i.toNat?))
+  | ["resize", a, n] => do pure (.resize (← a.toNat?) (← n.toNat?))
+  | ["write", a, i, v] => do pure (.write (← a.toNat?) (← i.toNat?) (← v.toInt?))
+  | ["read", a, i] => do pure (.read (← a.toNat?) (← i.toNat?))
+  | ["destroy", a] => do pure (.destroy (← a.toNat?))
+  | _ => none
+
+def parseOps (s : String) : Option (List (Op Int)) :=
+  if s == "[]" || s == "" then some [] else (s.splitOn ";").mapM parseOp
+
+def fmtCell : Cell Int → String
+  | some v => toString v
+  | none => "u"
+
+def fmtCells (l : List (Cell Int)) : String := ",".intercalate (l.map fmtCell)
+
+def nSlots : Nat := 2
+
+/-- spec part of one step -/
+def fmtObjs (I : Impl σ Int) (w : World σ) : String :=
+  "/".intercalate ((List.range nSlots).map fun k =>
+    match w.objs k with
+    | none => "-"
+    | some x => s!"{I.size x}:{fmtCells (I.view x)}")
+
+def fmtInternals (intern : σ → String) (w : World σ) : String :=
+  "/".intercalate ((List.range nSlots).map fun k =>
+    match w.objs k with
+    | none => "-"
+    | some x => intern x) ++ s!";a={w.led.allocs},f={w.led.freed.length}"
+
+/-- value a `read` returns -/
+def readNote (I : Impl σ Int) (w : World σ) : Op Int → String
+  | .read s i =>
+    match w.objs s with
+    | some x => " r=" ++ fmtCell (I.read x i w.led).1
+    | none => ""
+  | _ => ""
+
+def trace (I : Impl σ Int) (intern : σ → String) (ops : List (Op Int)) : String :=
+  let rec go (w : World σ) (ops : List (Op Int)) (accS accI : List String) : World σ × List String × List String :=
+    match ops with
+    | [] => (w, accS.reverse, accI.reverse)
+    | op :: rest =>
+      let valid := Op.valid I w op
+      let w' := step I w op
+      let s := fmtObjs I w' ++ (if valid then readNote I w op else "!")
+      go w' rest (s :: accS) (fmtInternals intern w' :: accI)
+  let (w, ss, is) := go World.empty ops [] []
+  -- end of history: destroy what is still alive
+  let wEnd := run I w ((List.range nSlots).map Op.destroy)
+  let L := wEnd.led
+  let badFree := L.freed.length - L.freed.eraseDups.length + (L.freed.filter (fun b => decide (L.allocs ≤ b))).length
+  let fin := s!"leak={(L.allocs : Int) - L.freed.length} live={(L.ctors : Int) - L.dtors} bad={badFree}"
+  -- an access outside a buffer is undefined behaviour: whatever the real run shows, the model predicts nothing
+  if L.events.contains .oob then "ub:oob" else
+  s!"ok {"|".intercalate ss} # {"|".intercalate is} # {fin}"
+
+def vecIntern (v : Vec Int) : String := s!"{v.cap}:{fmtCells (v.cells.drop v.size)}"
+
+def svecIntern (c : Nat) (v : SVec Int) : String := s!"{c}:{fmtCells (v.cells.drop v.size)}"
+def arrIntern (c : Nat) (_ : SVec Int) : String := s!"{c}:"
+
+def smallIntern (c : Nat) (x : Small Int) : String :=
+  if x.tagS then s!"S{c}:{fmtCells (x.st.cells.drop x.st.size)}" else s!"D{x.dy.cap}:{fmtCells (x.dy.cells.drop x.dy.size)}"
+
+/-! either / maybe -/
+
+def parseEOp (s : String) : Option (EOp Int Int) :=
+  match s.splitOn ":" with
+  | ["mk", a] => do pure (.mk (← a.toNat?))
+  | ["mkL", a, v] => do pure (.mkL (← a.toNat?) (← v.toInt?))
+  | ["mkR", a, v] => do pure (.mkR (← a.toNat?) (← v.toInt?))
+  | ["copy", d, a] => do pure (.copy (← d.toNat?) (← a.toNat?))
+  | ["assign", d, a] => do pure (.assign (← d.toNat?) (← a.toNat?))
+  | ["setL", a, v] => do pure (.setL (← a.toNat?) (← v.toInt?))
+  | ["setR", a, v] => do pure (.setR (← a.toNat?) (← v.toInt?))
+  | ["writeL", a, v] => do pure (.writeL (← a.toNat?) (← v.toInt?))
+  | ["read", a] => do pure (.read (← a.toNat?))
+  | ["destroy", a] => do pure (.destroy (← a.toNat?))
+  | _ => none
+
+def parseEOps (s : String) : Option (List (EOp Int Int)) :=
+  if s == "[]" || s == "" then some [] else (s.splitOn ";").mapM parseEOp
+
+def fmtEith (isMaybe : Bool) (x : Eith Int Int) : String :=
+  if x.tagL then (if isMaybe then "J" else "L") ++ fmtCell x.left.val
+  else if isMaybe then "N" else "R" ++ fmtCell x.right
+
+def fmtEObjs (isMaybe : Bool) (w : EWorld Int Int) : String :=
+  "/".intercalate ((List.range nSlots).map fun k =>
+    match w.objs k with
+    | none => "-"
+    | some x => fmtEith isMaybe x)
+
+def ledBad (L : Ledger) : Nat :=
+  (L.events.filter (fun e => e == .uninitAssign || e == .overLive || e == .destroyDead)).length
+
+def EOp.valid (w : EWorld Int Int) : EOp Int Int → Bool
+  | .mk s | .mkL s _ | .mkR s _ => (w.objs s).isNone
+  | .copy d s => (w.objs d).isNone && (w.objs s).isSome
+  | .assign d s => (w.objs d).isSome && (w.objs s).isSome
+  | .setL s _ | .setR s _ | .read s | .destroy s => (w.objs s).isSome
+  | .writeL s _ => match w.objs s with | some x => x.tagL | none => false
+
+def etrace (cfg : ECfg Int Int) (ops : List (EOp Int Int)) : String :=
+  let rec go (w : EWorld Int Int) (ops : List (EOp Int Int)) (accS accI : List String) : EWorld Int Int × List String × List String :=
+    match ops with
+    | [] => (w, accS.reverse, accI.reverse)
+    | op :: rest =>
+      let valid := EOp.valid w op
+      let w' := estep cfg w op
+      let note := match op with
+        | .read s => (match w.objs s with | some x => " r=" ++ fmtEith cfg.isMaybe x | none => "")
+        | _ => ""
+      let s := fmtEObjs cfg.isMaybe w' ++ (if valid then note else "!")
+      go w' rest (s :: accS) (s!"live={(w'.led.ctors : Int) - w'.led.dtors},b={ledBad w'.led}" :: accI)
+  let (w, ss, is) := go EWorld.empty ops [] []
+  let wEnd := erun cfg w ((List.range nSlots).map EOp.destroy)
+  let L := wEnd.led
+  s!"ok {"|".intercalate ss} # {"|".intercalate is} # leak=0 live={(L.ctors : Int) - L.dtors} bad={ledBad L}"
+
+def handle : Handler := fun op a =>
   match op with
+  | "hist" => orBad do
+      let kind ← a.get? "kind"
+      let ops ← (a.get? "ops").bind parseOps
+      match kind with
+      | "vec" => pure (trace (vecImpl Int) vecIntern ops)
+      | "svec" => pure (trace (svecImpl 4 (0 : Int)) (svecIntern 4) ops)
+      | "arr" => pure (trace (arrImpl 3 (0 : Int)) (arrIntern 3) ops)
+      | "tuple" => pure (trace (arrImpl 3 (0 : Int)) (arrIntern 3) ops)
+      | "tuplev2" => pure (trace (arrImpl 3 (0 : Int)) (arrIntern 3) ops)
+      | "small" => pure (trace (smallImpl 4 (0 : Int)) (smallIntern 4) ops)
+      | _ => none
+  | "ehist" => orBad do
+      let kind ← a.get? "kind"
+      let elem := (a.get? "elem").getD "int"
+      let ops ← (a.get? "ops").bind parseEOps
+      let nt := elem == "tracked"
+      match kind with
+      | "maybe" => pure (etrace { isMaybe := true, nt := nt, zeroL := 0, zeroR := 0 } ops)
+      | "either" => pure (etrace { isMaybe := false, nt := nt, zeroL := 0, zeroR := 0 } ops)
+      | _ => none
   | _ => none
 
 end NmVerif.Driver.C19
